@@ -185,14 +185,18 @@ Definition is_remove_fn (f : fname) : bool :=
   match f with FRemove | FRemoveIf | FDelete | FDeleteIf => true | _ => false end.
 
 Lemma parse_sfv_remove : forall c,
-  is_remove_fn (c_fn c) = true -> keywords_ok c = true -> not_test_not (c_test c) = true ->
+  is_remove_fn (c_fn c) = true -> keywords_ok c = true ->
   parse_sfv c = Some (mkSfv (s_start c) (c_end c) (match c_count c with CNum z => Some z | _ => None end) (c_from_end c)).
 Proof.
-  intros c Hf Hk Ht. unfold keywords_ok in Hk. apply andb_true_iff in Hk as [K1 _].
+  intros c Hf Hk. unfold keywords_ok in Hk. apply andb_true_iff in Hk as [K1 _].
   assert (no_count (c_fn c) = false) as Nc by (destruct (c_fn c); cbn in Hf |- *; congruence).
   unfold parse_sfv, s_start. rewrite Nc.
-  destruct (c_test c) eqn:T; try discriminate.
+  destruct (c_test c) eqn:T.
   - destruct (c_count c); reflexivity.
+  - destruct (is_if (c_fn c)) eqn:I.
+    + assert (takes_no_test (c_fn c) = true) as Tn by (destruct (c_fn c); cbn in I |- *; congruence).
+      rewrite Tn in K1. cbn in K1. discriminate.
+    + destruct (c_count c); reflexivity.
   - destruct (is_if (c_fn c)) eqn:I.
     + assert (takes_no_test (c_fn c) = true) as Tn by (destruct (c_fn c); cbn in I |- *; congruence).
       rewrite Tn in K1. cbn in K1. discriminate.
@@ -206,11 +210,7 @@ Proof.
   assert (Hb := Hd). split_dom Hb D2 D1 D0 D.
   unfold bounds_ok in Hb. apply andb_true_iff in Hb as [B1 B2].
   apply Nat.leb_le in B1, B2.
-  assert (not_test_not (c_test c) = true) as Htn.
-  { pose proof D0 as K. unfold keywords_ok in K. apply andb_true_iff in K as [K _].
-    destruct (c_fn c) eqn:F; try discriminate Hf; cbn in D, K; try exact D;
-      destruct (c_test c); try discriminate; reflexivity. }
-  pose proof (parse_sfv_remove c Hf D0 Htn) as Hp.
+  pose proof (parse_sfv_remove c Hf D0) as Hp.
   assert (m_delete c (mkSfv (s_start c) (c_end c) (match c_count c with CNum z => Some z | _ => None end) (c_from_end c)) =
           RSeq (firstn (s_start c) (elems (c_seq c)) ++
                 from_end_wrap (c_from_end c) (rem_n (s_match c) (s_limit (c_count c)))
